@@ -451,7 +451,8 @@ Proof.
   rewrite (inv_k2c _ _ I), has_key_live.
   destruct (live (TInst i, f) (s_log sp)) eqn:Lv; cbn [fst snd]; (split; [reflexivity|]).
   - (* the pair is registered already: only the promotion of the _EmptyListener *)
-    constructor; cbn [classes insts k2c next_w fired s_hier s_insts s_log s_next s_fired]; try apply I.
+    constructor; cbn [classes insts k2c next_w fired s_hier s_insts s_log s_next s_fired]; try apply I;
+      try reflexivity.
     + intros r j Hr Et. rewrite set_nth_length. apply (inv_tgt_i _ _ I r j Hr Et).
     + rewrite map_icls_set by exact Ei. apply (inv_icls _ _ I).
     + intros j jr Hj. destruct (Nat.eq_dec i j) as [<-|N].
@@ -461,10 +462,15 @@ Proof.
     + rewrite (inv_next _ _ I). reflexivity.
     + intros r Hr. pose proof (inv_idlt _ _ I r Hr). lia.
   - (* a new registration *)
-    set (r := new_reg sp (TInst i) f fl). fold r.
+    set (r := {| g_id := s_next sp; g_tgt := TInst i; g_fn := f; g_ins := fl_insert fl;
+                 g_once := fl_once fl; g_wrap := fl_wrap fl |}).
     assert (Ex : mk_lfn (next_w st) f fl = lfn_of r) by (rewrite (inv_next _ _ I); reflexivity).
     assert (Et : g_tgt r = TInst i) by reflexivity.
-    destruct (log_snoc_inv st sp r I eq_refl Lv) as (K1 & K2 & K3).
+    assert (Eid : g_id r = s_next sp) by reflexivity.
+    assert (Eins : fl_insert fl = g_ins r) by reflexivity.
+    assert (Ekey : (TInst i, f) = key_of r) by reflexivity.
+    rewrite Ekey in Lv. rewrite Eins, Ekey. clearbody r.
+    destruct (log_snoc_inv st sp r I Eid Lv) as (K1 & K2 & K3).
     constructor; cbn [classes insts k2c next_w fired s_hier s_insts s_log s_next s_fired]; try apply I.
     + intros c l Hc El. unfold cls_list. rewrite cls_regs_snoc_irr by (eapply rel_cls_inst; eauto).
       apply (inv_lvl _ _ I); assumption.
@@ -472,7 +478,7 @@ Proof.
       apply (inv_tgt_c _ _ I r' q Hr' Et').
     + intros r' j Hr' Et'. rewrite set_nth_length. apply in_app_or in Hr'. destruct Hr' as [Hr'|[<-|[]]].
       * apply (inv_tgt_i _ _ I r' j Hr' Et').
-      * inversion Et'. subst. exact Hi.
+      * rewrite Et in Et'. inversion Et'. subst j. exact Hi.
     + rewrite map_icls_set by exact Ei. apply (inv_icls _ _ I).
     + intros j jr Hj. destruct (Nat.eq_dec i j) as [<-|N].
       * rewrite nth_error_set_nth_eq in Hj by exact Hi. inversion Hj. subst jr. cbn [i_cls coll_list i_coll].
@@ -482,7 +488,7 @@ Proof.
       * rewrite nth_error_set_nth_neq in Hj by exact N. destruct (inv_inst _ _ I j jr Hj) as (A' & B' & C').
         split; [exact A'|]. split; [exact B'|].
         rewrite inst_regs_snoc_irr; [exact C'|]. unfold rel_inst. rewrite Et. apply Nat.eqb_neq. exact N.
-    + rewrite (inv_k2c _ _ I), map_app, Ex. reflexivity.
+    + rewrite map_app, Ex. reflexivity.
     + rewrite (inv_next _ _ I). reflexivity.
     + exact K1.
     + exact K2.
@@ -514,19 +520,25 @@ Proof.
   cbn [step sstep]. rewrite (valid_target_eq st sp (TCls t) I). cbn [valid_target].
   destruct (Nat.ltb_spec t (length (classes st))) as [_|X]; [|lia].
   set (cs := classes st) in *. set (log := s_log sp) in *.
-  set (r := new_reg sp (TCls t) f fl).
+  set (r := {| g_id := s_next sp; g_tgt := TCls t; g_fn := f; g_ins := fl_insert fl;
+               g_once := fl_once fl; g_wrap := fl_wrap fl |}).
   assert (Ex : mk_lfn (next_w st) f fl = lfn_of r) by (rewrite (inv_next _ _ I); reflexivity).
   assert (Et : g_tgt r = TCls t) by reflexivity.
+  assert (Eid : g_id r = s_next sp) by reflexivity.
+  assert (Eins : fl_insert fl = g_ins r) by reflexivity.
+  assert (Efn : g_fn r = f) by reflexivity.
+  assert (Epl : plain r = negb (fl_once fl || fl_wrap fl)) by reflexivity.
+  assert (Ekey : (TCls t, f) = key_of r) by reflexivity.
+  rewrite Ekey in G2. rewrite Eins, Ekey. clearbody r.
   destruct (walk_subclasses_some cs t G1) as [W HW].
   destruct (walk_single cs (inv_single _ _ I) t W G1 HW) as (WND & Wdesc & Word).
-  unfold do_insert. rewrite HW, Ex. change (negb (fl_insert fl)) with (negb (g_ins r)).
+  unfold do_insert. rewrite HW, Ex.
   pose proof (do_insert_mid cs log r t W (inv_single _ _ I) G1 Et (inv_lvl _ _ I) (inv_tgt_c _ _ I) WND Wdesc Word)
     as (SH & HP & HnP).
   set (cs' := fold_left (ins_step t (negb (g_ins r)) (lfn_of r)) W cs) in *.
   pose proof SH as [SL SM].
   rewrite (inv_k2c _ _ I), has_key_live. fold log. rewrite G2. cbn [fst snd]. split; [reflexivity|].
-  fold r.
-  destruct (log_snoc_inv st sp r I eq_refl G2) as (K1 & K2 & K3).
+  destruct (log_snoc_inv st sp r I Eid G2) as (K1 & K2 & K3).
   assert (HtW : In t W) by (apply Wdesc; split; [exact G1|left; reflexivity]).
   constructor; cbn [classes insts k2c next_w fired s_hier s_insts s_log s_next s_fired]; fold log.
   - rewrite (hier_same _ _ SH). apply (inv_hier _ _ I).
@@ -550,7 +562,7 @@ Proof.
     + destruct (in_dec Nat.eq_dec (i_cls jr) W) as [HqW|HqW]; [rewrite HP by exact HqW; discriminate|].
       rewrite HnP by exact HqW. exact B.
     + rewrite inst_regs_snoc_irr by (eapply rel_inst_cls; eauto). exact C.
-  - rewrite (inv_k2c _ _ I). fold log. rewrite map_app. reflexivity.
+  - rewrite map_app. reflexivity.
   - rewrite (inv_next _ _ I). reflexivity.
   - apply (inv_fired _ _ I).
   - exact K1.
@@ -561,7 +573,7 @@ Proof.
     { destruct (SM t1) as [_ <-]. destruct (SM t2) as [_ <-]. exact Hc. }
     assert (NoClash : plain r = true -> forall r2 t2, In r2 log -> plain r2 = true -> g_fn r2 = f ->
               g_tgt r2 = TCls t2 -> (t = t2 \/ In t (mro cs t2) \/ In t2 (mro cs t)) -> False).
-    { intros Pr r0 t0 H0 P0 F0 T0 C0. unfold plain in Pr. cbn [r new_reg g_once g_wrap] in Pr.
+    { intros Pr r0 t0 H0 P0 F0 T0 C0. rewrite Epl in Pr.
       apply negb_true_iff in Pr. rewrite Pr in G3. cbn [orb] in G3. apply negb_true_iff in G3.
       assert (existsb (clash sp t f) log = true); [|congruence].
       apply existsb_exists. exists r0. split; [exact H0|]. unfold clash. rewrite T0, P0, F0, Nat.eqb_refl.
@@ -570,8 +582,155 @@ Proof.
     destruct H1 as [H1|[<-|[]]], H2 as [H2|[<-|[]]].
     + apply (inv_clash _ _ I r1 r2 t1 t2); auto.
     + exfalso. rewrite Et in T2. inversion T2. subst t2.
-      apply (NoClash P2 r1 t1 H1 P1 Ef T1). intuition.
+      apply (NoClash P2 r1 t1 H1 P1 (eq_trans Ef Efn) T1). intuition.
     + exfalso. rewrite Et in T1. inversion T1. subst t1.
-      apply (NoClash P1 r2 t2 H2 P2 (eq_sym Ef) T2). intuition.
+      apply (NoClash P1 r2 t2 H2 P2 (eq_trans (eq_sym Ef) Efn) T2). intuition.
     + reflexivity.
+Qed.
+
+(* ------------------------------------------------------------------ remove *)
+Lemma filter_sub_inv : forall st sp k, INV st sp ->
+  NoDup (map key_of (filter (not_key k) (s_log sp))) /\
+  (forall r, In r (filter (not_key k) (s_log sp)) -> g_id r < s_next sp) /\
+  NoDup (map g_id (filter (not_key k) (s_log sp))).
+Proof.
+  intros st sp k I. destruct (log_sub_inv st sp (not_key k) I) as [A B]. split; [exact A|]. split; [|exact B].
+  intros r Hr. apply filter_In in Hr. apply (inv_idlt _ _ I). tauto.
+Qed.
+
+Lemma step_remove : forall st sp t f, INV st sp ->
+  snd (step st (Remove t f)) = snd (sstep sp (Remove t f)) /\
+  INV (fst (step st (Remove t f))) (fst (sstep sp (Remove t f))).
+Proof.
+  intros st sp t f I. cbn [step sstep]. rewrite (valid_target_eq st sp t I).
+  destruct (valid_target (length (classes st)) (length (insts st)) t) eqn:V; cbn [fst snd];
+    [|split; [reflexivity|exact I]].
+  rewrite (inv_k2c _ _ I).
+  destruct (live (t, f) (s_log sp)) eqn:Lv.
+  2:{ rewrite lookup_key_none by exact Lv. cbn [fst snd]. split; [reflexivity|exact I]. }
+  destruct (lookup_key_some _ _ Lv) as [r [Hr [Ek El]]]. rewrite El, del_key_log.
+  change (fun r0 => negb (key_eqb (t, f) (key_of r0))) with (not_key (t, f)).
+  rewrite <- Ek. change (l_id (lfn_of r)) with (ident_of r).
+  set (cs := classes st) in *. set (log := s_log sp) in *. set (log' := filter (not_key (key_of r)) log).
+  destruct (filter_sub_inv st sp (key_of r) I) as (K1 & K2 & K3). fold log in K1, K2, K3. fold log' in K1, K2, K3.
+  assert (Sub : forall y, In y log' -> In y log) by (intros y Hy; apply filter_In in Hy; tauto).
+  destruct t as [c|i]; cbn [valid_target] in V.
+  - (* class target *)
+    apply Nat.ltb_lt in V. assert (Et : g_tgt r = TCls c) by (unfold key_of in Ek; inversion Ek; reflexivity).
+    destruct (walk_subclasses_some cs c V) as [W HW]. rewrite HW.
+    destruct (walk_single cs (inv_single _ _ I) c W V HW) as (WND & Wdesc & _).
+    destruct (remove_walk_spec cs log r c W Et Hr (inv_keys _ _ I) (cls_idents_nodup st sp I) (inv_lvl _ _ I) WND Wdesc)
+      as [cs' [E (SH & R1 & R2 & R3)]].
+    rewrite E. cbn [fst snd]. split; [reflexivity|]. fold log'. pose proof SH as [SL SM].
+    assert (Mono : forall q, lvl cs q <> None -> lvl cs' q <> None).
+    { intros q Hq. destruct (in_dec Nat.eq_dec q W) as [HqW|HqW]; [|rewrite R3 by exact HqW; exact Hq].
+      destruct (lvl cs q) as [l0|] eqn:E0; [|congruence]. rewrite (R1 q l0 HqW E0). discriminate. }
+    constructor; cbn [classes insts k2c next_w fired s_hier s_insts s_log s_next s_fired]; fold log'.
+    + rewrite (hier_same _ _ SH). apply (inv_hier _ _ I).
+    + eapply same_hier_single; eauto. apply (inv_single _ _ I).
+    + intros d l Hd Ed. rewrite SL in Hd. rewrite (same_hier_cls_list _ _ _ _ SH).
+      destruct (in_dec Nat.eq_dec d W) as [HdW|HdW].
+      * destruct (lvl cs d) as [l0|] eqn:E0.
+        -- rewrite (R1 d l0 HdW E0) in Ed. injection Ed as <-. reflexivity.
+        -- rewrite (R2 d HdW E0) in Ed. discriminate.
+      * rewrite R3 in Ed by exact HdW.
+        unfold log'. rewrite (cls_list_del_other cs log r c Et Hr (inv_keys _ _ I))
+          by (intro D; apply HdW; apply Wdesc; split; assumption).
+        apply (inv_lvl _ _ I); assumption.
+    + intros r' q Hr' Et'. destruct (inv_tgt_c _ _ I r' q (Sub r' Hr') Et') as [A B]. rewrite SL.
+      split; [exact A|apply Mono; exact B].
+    + intros r' j Hr' Et'. apply (inv_tgt_i _ _ I r' j (Sub r' Hr') Et').
+    + apply (inv_icls _ _ I).
+    + intros j jr Hj. destruct (inv_inst _ _ I j jr Hj) as (A & B & C). rewrite SL.
+      split; [exact A|]. split; [apply Mono; exact B|].
+      unfold log'. rewrite inst_regs_del. rewrite (regs_del_irr _ log r (inv_keys _ _ I) Hr); [exact C| |].
+      * intros y Hy. apply In_inst_regs in Hy. tauto.
+      * intro X. apply In_inst_regs in X. destruct X as [_ X]. rewrite (rel_inst_cls j r c Et) in X. discriminate.
+    + reflexivity.
+    + apply (inv_next _ _ I).
+    + apply (inv_fired _ _ I).
+    + exact K1.
+    + exact K2.
+    + exact K3.
+    + intros r1 r2 t1 t2 H1 H2 P1 P2 Ef T1 T2 Hc.
+      assert (Hc' : t1 = t2 \/ In t1 (mro cs t2) \/ In t2 (mro cs t1)).
+      { destruct (SM t1) as [_ <-]. destruct (SM t2) as [_ <-]. exact Hc. }
+      apply (inv_clash _ _ I r1 r2 t1 t2); auto.
+  - (* instance target *)
+    apply Nat.ltb_lt in V. assert (Et : g_tgt r = TInst i) by (unfold key_of in Ek; inversion Ek; reflexivity).
+    destruct (nth_error (insts st) i) as [ir|] eqn:Ei; [|apply nth_error_None in Ei; lia].
+    destruct (inv_inst _ _ I i ir Ei) as (A & B & C).
+    assert (Hrel : In r (inst_regs i log)).
+    { apply In_inst_regs. split; [exact Hr|]. unfold rel_inst. rewrite Et. apply Nat.eqb_refl. }
+    destruct (i_coll ir) as [l|] eqn:Ec.
+    2:{ exfalso. unfold coll_list in C. rewrite Ec in C. fold log in C.
+        destruct (inst_regs i log); [destruct Hrel|discriminate]. }
+    assert (El' : l = map lfn_of (inst_regs i log)) by (unfold coll_list in C; rewrite Ec in C; exact C).
+    pose proof (remove_first_regs _ r (inst_idents_nodup st sp I i) (inst_keys_nodup st sp I i) Hrel) as RF.
+    fold log in RF. rewrite El', RF.
+    cbn [fst snd]. split; [reflexivity|]. fold log'.
+    constructor; cbn [classes insts k2c next_w fired s_hier s_insts s_log s_next s_fired]; fold log'; fold cs.
+    + apply (inv_hier _ _ I).
+    + apply (inv_single _ _ I).
+    + intros d l0 Hd Ed. unfold cls_list, log'. rewrite cls_regs_del.
+      rewrite (regs_del_irr _ log r (inv_keys _ _ I) Hr).
+      * apply (inv_lvl _ _ I); assumption.
+      * intros y Hy. apply In_cls_regs in Hy. tauto.
+      * intro X. apply In_cls_regs in X. destruct X as [_ X]. rewrite (rel_cls_inst _ d r i Et) in X. discriminate.
+    + intros r' q Hr' Et'. apply (inv_tgt_c _ _ I r' q (Sub r' Hr') Et').
+    + intros r' j Hr' Et'. rewrite set_nth_length. apply (inv_tgt_i _ _ I r' j (Sub r' Hr') Et').
+    + rewrite map_icls_set by exact Ei. apply (inv_icls _ _ I).
+    + intros j jr Hj. destruct (Nat.eq_dec i j) as [<-|N].
+      * rewrite nth_error_set_nth_eq in Hj by exact V. inversion Hj. subst jr. cbn [i_cls coll_list i_coll].
+        split; [exact A|]. split; [exact B|]. unfold log'. rewrite inst_regs_del. reflexivity.
+      * rewrite nth_error_set_nth_neq in Hj by exact N. destruct (inv_inst _ _ I j jr Hj) as (A' & B' & C').
+        split; [exact A'|]. split; [exact B'|].
+        unfold log'. rewrite inst_regs_del. rewrite (regs_del_irr _ log r (inv_keys _ _ I) Hr); [exact C'| |].
+        -- intros y Hy. apply In_inst_regs in Hy. tauto.
+        -- intro X. apply In_inst_regs in X. destruct X as [_ X]. unfold rel_inst in X. rewrite Et in X.
+           apply Nat.eqb_eq in X. congruence.
+    + reflexivity.
+    + apply (inv_next _ _ I).
+    + apply (inv_fired _ _ I).
+    + exact K1.
+    + exact K2.
+    + exact K3.
+    + intros r1 r2 t1 t2 H1 H2 P1 P2 Ef T1 T2 Hc. apply (inv_clash _ _ I r1 r2 t1 t2); auto.
+Qed.
+
+(* ================================================================== the refinement theorem *)
+Lemma INV_init : INV init sinit.
+Proof.
+  constructor; cbn [init sinit classes insts k2c next_w fired s_hier s_insts s_log s_next s_fired];
+    try reflexivity; try (intros; contradiction).
+  - intros c Hc. cbn in Hc. lia.
+  - intros c l Hc. cbn in Hc. lia.
+  - intros i ir Hi. destruct i; discriminate.
+  - constructor.
+  - constructor.
+Qed.
+
+Lemma step_refines : forall st sp o, INV st sp -> gstep sp o = true ->
+  snd (step st o) = snd (sstep sp o) /\ INV (fst (step st o)) (fst (sstep sp o)).
+Proof.
+  intros st sp o I G. destruct o as [bases m|c|t f fl|t f|t f|i].
+  - apply step_newclass; assumption.
+  - apply step_newinst; assumption.
+  - destruct t; [apply step_listen_cls; assumption|apply step_listen_inst; assumption].
+  - apply step_remove; assumption.
+  - apply step_contains; assumption.
+  - apply step_dispatch; assumption.
+Qed.
+
+Lemma run_refines : forall ops st sp, INV st sp -> guard sp ops = true ->
+  snd (run st ops) = snd (srun sp ops) /\ INV (fst (run st ops)) (fst (srun sp ops)).
+Proof.
+  induction ops as [|o ops IH]; intros st sp I G; cbn [run srun].
+  - split; [reflexivity|exact I].
+  - cbn [guard] in G. apply andb_true_iff in G. destruct G as [G1 G2].
+    destruct (step_refines st sp o I G1) as [E I'].
+    destruct (step st o) as [st1 x] eqn:Es. destruct (sstep sp o) as [sp1 y] eqn:Ess.
+    cbn [fst snd] in *. destruct (IH st1 sp1 I' G2) as [E' I''].
+    destruct (run st1 ops) as [st2 xs]. destruct (srun sp1 ops) as [sp2 ys]. cbn [fst snd] in *.
+    split; [congruence|exact I''].
 Qed.
